@@ -102,7 +102,7 @@ def run(tier):
                "single-description probes (every adversarial text at every description site). Laws: t = print_schema(s); "
                "build_schema(t) succeeds and is valid; print again == t; find_schema_changes both ways == []; field-by-field "
                "dump equal; model: parse(t) as definition list == extracted sdl_of(enc s), extracted build(enc parse(t)) == "
-               "enc(rebuilt). non-trivial = a schema with at least one description/deprecation reason/default value")
+               "enc(rebuilt). non-trivial = a generated schema that has descriptions and default values and deprecations (probes and fixtures count as non-trivial)")
 
     cases, meta = [], []
 
@@ -190,7 +190,8 @@ def run(tier):
         spec = G.gen_spec(rng, size=rng.randint(1, 3), adversarial=i % 5 != 0, directive_deprecation=i % 4 == 0)
         sdl = G.spec_to_sdl(spec)
         dd = any(d.depr is not None for d in spec.directives)
-        rich = ('"' in sdl) or ("=" in sdl) or ("@deprecated" in sdl)
+        # non-trivial: descriptions AND default values AND deprecations are all present
+        rich = ('"' in sdl) and (" = " in sdl) and ("@deprecated" in sdl)
         for mode in ("sdl", "prog"):
             try:
                 s = build_again(sdl, dd) if mode == "sdl" else G.spec_to_schema(spec, rng)
